@@ -39,13 +39,22 @@ def coherent_rows(t, like, u, x, logl, blobs, where, need_u=True):
         bad.append(("x-never-evaluated", f"{where}: {miss} rows whose x was never passed to the likelihood"))
     if wrong:
         bad.append(("logl-not-of-x", f"{where}: row {wrong[0]}: stored logL {wrong[2]!r} but the likelihood returned {wrong[1]!r} at that x"))
-    if blobs is not None and like.mode in ("blobs", "blobs2"):
+    if blobs is not None and like.mode in ("blobs", "blobs2", "blobs3"):
         for j in range(n):
             try:
                 if like.mode == "blobs2":
                     bid = int(blobs[j]["id"])
                     if float(blobs[j]["half"]) != 0.5 * bid:
                         bad.append(("blob-fields-split", f"{where}: row {j}: fields of one blob do not belong together ({blobs[j]!r})"))
+                        break
+                elif like.mode == "blobs3":
+                    row = np.asarray(blobs[j], float)
+                    if row.shape != (3,):
+                        bad.append(("blob-fields-split", f"{where}: row {j}: a three-column blob came back with shape {row.shape}"))
+                        break
+                    bid = int(row[0])
+                    if row[1] != 0.5 * bid or row[2] != bid + 0.25:
+                        bad.append(("blob-fields-split", f"{where}: row {j}: columns of one blob do not belong together ({row})"))
                         break
                 else:
                     bid = int(np.ravel(blobs[j])[0])
